@@ -127,7 +127,12 @@ class Ctl:
                     break
                 c = self.schedule[self.pos] if self.pos < len(self.schedule) else 0
                 self.pos += 1
-                pick = enabled[c % len(enabled)]
+                # fairness: an entity that has just completed a fruitless polling pass is not
+                # picked again while something else can run
+                cands = [e for e in enabled if not (getattr(e, "polling", False) and e.poll_streak >= self._cycle(e))]
+                if not cands:
+                    cands = enabled
+                pick = cands[c % len(cands)]
                 lab = pick.label() if callable(pick.label) else pick.label
                 self.log.append(([e.name for e in enabled], pick.name, lab))
                 if getattr(pick, "polling", False):
@@ -142,7 +147,7 @@ class Ctl:
             self.cv.notify_all()
 
     def _cycle(self, e):
-        return getattr(e, "cycle", 3)
+        return getattr(e, "cycle", 4)
 
     def _stalled(self):
         return True
@@ -158,7 +163,10 @@ class Ctl:
         out = {}
         for e in self.ents.values():
             if e.state == "parked":
-                lab = e.label() if callable(e.label) else e.label
+                try:
+                    lab = e.label() if callable(e.label) else e.label
+                except Exception:  # noqa: label depends on data that is not there (blocked get/recv)
+                    lab = ("blocked",)
                 out[e.name] = lab
         return out
 
